@@ -30,7 +30,7 @@ CHECKS.update({
    "1..8 concurrent subscriptions on a healthy link with lengths around every internal buffer (0..5000, frame queue also shrunk to 4), five element types, four producer and three consumer behaviours incl. a stalled consumer, unary calls interleaved, seeded hook delays and window W6; received sequences must equal the sent ones exactly, channels close only after the last value, the response announcing a channel precedes its first value on the wire, no foreign values, and other streams/calls make progress while one consumer is stalled. Plus the single-stall pair enumeration of C02 judged on its streams (complete, ordered, closed; endless streams flow and close on cancel).",
    "Healthy link only; schedules sampled.","2/C07"),
  "C08": ("fault_enumeration","termination-cause enumeration through the fault proxy + prefix/closure monitor, child-process survival for double close",
-   "Causes {handler close, subscription cancel, FIN/RST/BLACKHOLE at the k-th value frame x 5 byte positions, client close} x instants (before the channel-id response, after k values, values buffered behind a slow consumer) x pairwise races x windows W1 and W5; once the cause is logically established the drained channel must be closed within the grace, and what was received must be a prefix of what the handler sent; a double close kills the child and is attributed to the scenario.",
+   "Causes {handler close, subscription cancel, FIN/RST/BLACKHOLE at the k-th value frame x 5 byte positions, client close} x instants (before the channel-id response, after k values, values buffered behind a slow consumer) x pairwise races x windows W1 and W5; once the cause is logically established the drained channel must be closed within the grace, and what was received must be a prefix of what the handler sent; a double close kills the child and is attributed to the scenario. Plus a cancel storm (thousands of endless streams cancelled while their handlers stream at full speed, 6-8 callers on one client, drained to the close: gap-free prefix), run by an extra child built without the race detector because -race closes the few-instruction window it aims at.",
    "8 s grace after establishment; interleavings sampled plus two targeted windows.","2/C08"),
  "C18": ("fault_enumeration","closer fired from inside every hook point x occurrence of a mixed workload + completion monitor",
    "A mixed workload (concurrent calls, held call, multi-frame response, streams, a cancelled call and subscription, a cut with a refused redial, calls in the reconnect window, work after the reconnect) is run once per (client-side hook point, occurrence); the closer is fired asynchronously from inside that hook. Then: the closer returns, every outstanding call returned, 20 later calls return errors, every client channel is closed, and no redial hook event or proxy accept is sequenced after the closer's return; http/custom closers during calls in progress must not disturb them.",
